@@ -249,6 +249,7 @@ class GenCfg(object):
         self.negate = True         # unary minus
         self.div = True
         self.untyped = 0.0         # probability of breaking the term/phi typing at a node
+        self.term_temporal = 0.0   # probability of a prev/next of a term inside arithmetic
         self.max_bound = 6
         self.bound_step = 1        # interval end points are multiples of this
         self.dup = 0.0             # probability of re-using an already generated sub-formula
@@ -276,6 +277,11 @@ def gen_term(rng, cfg, d, pool=None):
     r = rng.random()
     if cfg.untyped and d > 0 and rng.random() < cfg.untyped:
         return gen_phi(rng, cfg, d - 1, pool)
+    if cfg.term_temporal and cfg.prevnext and rng.random() < cfg.term_temporal:
+        # a delayed copy of a term inside the arithmetic of a predicate: abs(x - (prev x)) <= 1
+        ops = (['prev', 's_prev'] if cfg.past else []) + (['next', 's_next'] if cfg.future else [])
+        if ops:
+            return N(rng.choice(ops), gen_term(rng, cfg, max(d - 1, 0), pool))
     if d <= 0 or r < 0.45 or not cfg.arith:
         if rng.random() < 0.75:
             return V(rng.choice(cfg.vars))
